@@ -54,9 +54,9 @@ CHECKS = {
     "C18": dict(cat="other", ref="DESIGN.md §4 C18", technique="E3: the id-allocation kernel read from the real source by AST and its parity/freshness invariant shown inductive in z3 over unbounded integers; E1: CrossHair symbolic execution of channel-over-channel transfer and table hygiene",
                 text="One-step induction (z3, unbounded ints) for id disjointness/freshness over histories of any length, relying on the lock seen in the AST for atomicity of read-and-increment; bounded symbolic execution for (de)serialisation of channels and for the channel tables returning to baseline.",
                 note=E1_NOTE + "; E3 trusts the AST extraction of (start counts, increment, with-lock block) and threading.RLock's mutual exclusion; concurrent newchannel() schedules are not explored beyond that"),
-    "C05": dict(cat="other", ref="DESIGN.md §4 C05 (part b only, see §11)", technique="CrossHair symbolic execution of Group.makegateway/allocate_id/_register with process creation replaced by a recording stub; symbolic live ids and requested id",
-                text="Only the second sentence of the statement (a failing makegateway leaves no process behind) is decided. terminate(timeout)'s promptness and kill behaviour are NOT covered by this check.",
-                note=E1_NOTE + "; part (a) of C05 (terminate returns promptly, group empty, every child exited) is outside: safe_terminate's closures are outside the E2 translator subset and remote process behaviour is the OS's"),
+    "C05": dict(cat="other", ref="DESIGN.md §4 C05, §11", technique="E1: CrossHair symbolic execution of Group.makegateway/allocate_id/_register (process creation stubbed) and of Group.terminate's loop (safe_terminate stubbed); E2: bounded model checking (z3) of the real safe_terminate over the real WorkerPool with member/kill behaviour stubs and a model clock, counterexamples replayed on the real code",
+                text="(b) a failing makegateway leaves no process; (a) the termination *protocol*: terminate's rounds exit every member once (proxied ones first) and leave the group empty, and safe_terminate returns in every schedule within a small multiple of the timeout and kills exactly the members that did not come down - for stubbed member behaviours (comes down / only when killed / never; kill works / hangs). What real interpreters do with signals is outside.",
+                note=E1_NOTE + "; E2 part: translator (validated per run), primitive models, the time rule and the member/kill stubs; context switches at synchronisation operations"),
     "C17": dict(cat="other", ref="DESIGN.md §4 C17", technique="CrossHair symbolic execution of the real rsync receiver co-simulated with the real sender methods over an in-memory file system; symbolic modes/mtimes/contents/prior target states/delete flag",
                 text="Bounded symbolic check of tree equality after send (kind, content, permission bits, file mtime), delete/no-delete semantics and the no-op re-sync, for single-file and small-tree skeletons with symbolic attributes and prior target states.",
                 note=E1_NOTE + "; the file system is an in-memory model, RSync.send()'s dispatch loop is replaced by an equivalent dispatcher over the same real methods; relative links/cwd, unusual names and real file systems are outside"),
